@@ -1,11 +1,523 @@
 import Driver.Json
+import OomdModel.Senpai
+import OomdModel.Path
+import OomdModel.Generated.Consts
 
-/-! Driver glue for engine `senpai` (stub: not built yet). -/
+/-! Driver glue for engine `h_senpai` (C18).
+
+`accepts` : the write trace of the real plugin equals, tick by tick and write by write, the trace of
+`OomdModel.Senpai.runHist` executed with the `Float` instance (bit-exact `double` arithmetic).
+
+`holds` : the clauses of the property evaluated on the implementation's trace by an oracle that uses
+only the scenario's numbers and exact integer / rational arithmetic (no function of the model except
+the hierarchy walk for the effective swap values, which belongs to CgroupContext, not to Senpai).
+A guard clause is judged only when the exact and the `double` evaluation of the comparison agree
+(DESIGN 3.1: the rounding margin is modelled, not verified); the number of skipped judgements is
+reported as `margin`. -/
 namespace Driver.Senpai
-open Lean
+open Lean OomdModel.Senpai
+
+/-! ## scenario parsing -/
+
+/-- decimal literal `-12.50` → (negative, mantissa, number of decimals) -/
+def parseDec (s : String) : Option (Bool × Nat × Nat) :=
+  let cs := s.toList
+  let (neg, body) := match cs with
+    | '-' :: r => (true, r)
+    | r => (false, r)
+  let ip := body.takeWhile (· != '.')
+  let fp := (body.dropWhile (· != '.')).drop 1
+  let ds := ip ++ fp
+  if ds.isEmpty || !(ds.all Char.isDigit) then none
+  else some (neg, (String.ofList ds).toNat!, fp.length)
+
+/-- how text becomes a number of type `α` -/
+structure Conv (α : Type) where
+  dec : Bool → Nat → Nat → α        -- std::stod of a decimal literal
+  avg : Nat → α                      -- PSI average in hundredths: std::stof, then float → double
+
+def convF : Conv Float where
+  dec neg m e := let f := Float.ofScientific m true e; if neg then -f else f
+  avg h := (Float32.ofScientific h true 2).toFloat
+
+def convQ : Conv Rat where
+  dec neg m e := let q : Rat := (m : Rat) / ((10 ^ e : Nat) : Rat); if neg then -q else q
+  avg h := (h : Rat) / 100
+
+def argStr (args : Json) (k : String) : Option String := (args.getObjValAs? String k).toOption
+
+def argInt (args : Json) (k : String) (d : Int) : Int :=
+  match argStr args k with
+  | some s => (s.toInt?).getD d
+  | none => d
+
+def argBool (args : Json) (k : String) : Bool :=
+  match argStr args k with
+  | some s => s == "true" || s == "True" || s == "1"
+  | none => false
+
+def argDec (cv : Conv α) (args : Json) (k : String) (dflt : String) : α :=
+  let s := (argStr args k).getD dflt
+  match parseDec s with
+  | some (n, m, e) => cv.dec n m e
+  | none => cv.dec false 0 0
+
+open OomdModel.Generated in
+def mkCfg (cv : Conv α) (sc : Json) : Cfg α :=
+  let a := jobj sc "args"
+  { limitMinBytes := argInt a "limit_min_bytes" (senpaiDefLimitMinMiB * 2 ^ 20)
+    limitMaxBytes := argInt a "limit_max_bytes" (senpaiDefLimitMaxGiB * 2 ^ 30)
+    interval := argInt a "interval" senpaiDefInterval
+    pressureMs := argInt a "pressure_ms" senpaiDefPressureMs
+    memPressurePct := argDec cv a "pressure_pct" senpaiDefPressurePct
+    ioPressurePct := argDec cv a "io_pressure_pct" senpaiDefIoPressurePct
+    maxProbe := argDec cv a "max_probe" senpaiDefMaxProbe
+    maxBackoff := argDec cv a "max_backoff" senpaiDefMaxBackoff
+    coeffProbe := argDec cv a "coeff_probe" senpaiDefCoeffProbe
+    coeffBackoff := argDec cv a "coeff_backoff" senpaiDefCoeffBackoff
+    swapThreshold := argDec cv a "swap_threshold" senpaiDefSwapThreshold
+    swapoutBpsThreshold := argInt a "swapout_bps_threshold" (2 ^ senpaiDefSwapoutBpsShift)
+    swapValidation := argBool a "swap_validation"
+    immediateBackoff := argBool a "immediate_backoff"
+    modulateSwappiness := argBool a "modulate_swappiness"
+    hostMemTotal := match jint? sc "memtotal_kb" with
+      | some kb => kb * 1024
+      | none => 0 }
+
+inductive VSpec | absent | echo | val (i : Int)
+deriving Inhabited
+
+def vspec (j : Json) (k : String) : VSpec :=
+  match j.getObjVal? k with
+  | .ok (Json.str "max") => .val int64Max
+  | .ok (Json.str "echo") => .echo
+  | .ok (Json.num n) => .val n.mantissa
+  | _ => .absent
+
+def vopt (j : Json) (k : String) : Option Int :=
+  match vspec j k with
+  | .val i => some i
+  | _ => none
+
+/-- one cgroup directory of one tick, as the scenario describes it -/
+structure CgE where
+  path : String
+  ino : Nat
+  gen : Int
+  ctrl : Option String
+  cur : Option Int
+  mmin : Option Int
+  mmax : Option Int
+  high : VSpec
+  highTmp : VSpec
+  stat : Option Json
+  mp : Option (Nat × Nat × Int)
+  iop : Option (Nat × Nat × Int)
+  swapMax : Option Int
+  swapCur : Option Int
+  reclaim : Bool
+deriving Inhabited
+
+def psiOf (j : Json) (k : String) : Option (Nat × Nat × Int) :=
+  match jarr j k with
+  | [a, b, c] => some (asNat a, asNat b, asInt c)
+  | _ => none
+
+def parseCg (j : Json) : CgE :=
+  { path := jstr j "p", ino := jnat j "ino", gen := jint j "gen", ctrl := jstr? j "ctrl"
+    cur := vopt j "cur", mmin := vopt j "min", mmax := vopt j "max"
+    high := vspec j "high", highTmp := vspec j "hightmp"
+    stat := match j.getObjVal? "stat" with | .ok (Json.obj o) => some (Json.obj o) | _ => none
+    mp := psiOf j "mp", iop := psiOf j "iop"
+    swapMax := vopt j "swap_max", swapCur := vopt j "swap_cur"
+    reclaim := jbool j "reclaim" }
+
+/-- what an ordinary-file cgroupfs remembers between ticks: the content of the two limit files -/
+structure WEntry where
+  path : String
+  ino : Nat
+  gen : Int
+  high : Option Int
+  highTmp : Option Int
+
+abbrev World := List WEntry
+
+def World.find (w : World) (p : String) : Option WEntry := List.find? (fun e => e.path == p) w
+
+/-- the world at the start of a tick: explicit values replace, `echo` keeps what the last write left;
+a directory whose identity changed was removed and re-created (no files left) -/
+def nextWorld (w : World) (cgs : List CgE) : World :=
+  cgs.map fun c =>
+    let prev : Option WEntry := match w.find c.path with
+      | some e => if e.ino == c.ino && e.gen == c.gen then some e else none
+      | none => none
+    let res (s : VSpec) (old : Option Int) : Option Int := match s with
+      | .absent => none
+      | .val i => some i
+      | .echo => old
+    { path := c.path, ino := c.ino, gen := c.gen
+      high := res c.high (prev.bind (·.high)), highTmp := res c.highTmp (prev.bind (·.highTmp)) }
+
+def World.setHigh (w : World) (p : String) (tmp : Bool) (v : Int) : World :=
+  w.map fun e => if e.path == p then (if tmp then { e with highTmp := some v } else { e with high := some v }) else e
+
+/-! ## which cgroups the `cgroup` argument resolves to (glob(3): one fnmatch per component) -/
+
+def comps (s : String) : List (List Char) := (s.splitOn "/").filter (· ≠ "") |>.map String.toList
+
+def matchPattern (pat path : String) : Bool :=
+  let ps := comps pat
+  let cs := comps path
+  ps.length == cs.length && (List.zip ps cs).all (fun (p, c) => OomdModel.Path.fnmatch p c)
+
+def patternsOf (sc : Json) : List String :=
+  ((argStr (jobj sc "args") "cgroup").getD "").splitOn "," |>.filter (· ≠ "")
+
+def isMatched (pats : List String) (c : CgE) : Bool := pats.any (fun p => matchPattern p c.path)
+
+/-! ## views -/
+
+def ancestors (path : String) : List String :=
+  let cs := (path.splitOn "/").filter (· ≠ "")
+  (List.range cs.length).map (fun k => "/".intercalate (cs.take (cs.length - k)))
+
+def swapChain (cgs : List CgE) (path : String) : List SwapNode :=
+  (ancestors path).map fun p =>
+    match cgs.find? (fun c => c.path == p) with
+    | some c => { swapMax := c.swapMax, swapUsage := c.swapCur }
+    | none => { swapMax := none, swapUsage := none }
+
+def statKey (st : Json) (k : String) : Option Int := (st.getObjValAs? Int k).toOption
+
+def mkSys (cv : Conv α) (j : Json) : Sys α :=
+  { swaptotal := jint j "swaptotal", swapused := jint j "swapused", swappiness := jint j "swappiness"
+    swapoutBps60 := cv.dec false (jnat j "bps60") 0, swapoutBps300 := cv.dec false (jnat j "bps300") 0 }
+
+def mkView [Num α] (cv : Conv α) (sys : Sys α) (cgs : List CgE) (w : World) (c : CgE) : View α :=
+  let chain := swapChain cgs c.path
+  let we := w.find c.path
+  let psi (o : Option (Nat × Nat × Int)) : Option (Psi α) :=
+    o.map fun (a, b, t) => { avg10 := cv.avg a, avg60 := cv.avg b, total := t }
+  { id := c.ino
+    current := c.cur
+    memStat := match c.stat with
+      | none => none
+      | some st => some { activeFile := (statKey st "active_file").getD 0
+                          inactiveFile := (statKey st "inactive_file").getD 0
+                          activeAnon := statKey st "active_anon"
+                          inactiveAnon := statKey st "inactive_anon" }
+    memMin := c.mmin
+    memHigh := we.bind (·.high)
+    memHighTmp := we.bind (·.highTmp)
+    memMax := c.mmax
+    effSwapFree := effSwapFree sys.swaptotal sys.swapused chain
+    effSwapMax := effSwapMax sys.swaptotal chain
+    effSwapUtil := effSwapUtil sys.swaptotal sys.swapused chain
+    memSome := psi c.mp
+    ioSome := psi c.iop
+    ctrlMemory := match c.ctrl with
+      | some s => (s.splitOn " ").contains "memory"
+      | none => false
+    highFile := (we.bind (·.high)).isSome
+    highTmpFile := (we.bind (·.highTmp)).isSome
+    reclaimFile := c.reclaim }
+
+/-! ## traces -/
+
+/-- a write as it is seen at the boundary -/
+structure WEv where
+  cg : String
+  file : String
+  text : String
+deriving BEq, Repr, Inhabited
+
+open OomdModel.Generated in
+def evToW (idPath : Nat → String) : Ev → WEv
+  | .high cg tmp val why =>
+    if tmp then
+      let dur : Nat := if why == Why.reset then 0 else senpaiHighTmpSeconds * 1000000
+      ⟨idPath cg, senpaiFileMemHighTmp, s!"{val} {dur}"⟩
+    else ⟨idPath cg, senpaiFileMemHigh, s!"{val}"⟩
+  | .reclaim cg size => ⟨idPath cg, senpaiFileMemReclaim, s!"{size}"⟩
+  | .swappiness v => ⟨"", "swappiness", s!"{v}"⟩
+
+def wevJ (e : WEv) : Json := Json.mkObj [("cg", Json.str e.cg), ("f", Json.str e.file), ("v", Json.str e.text)]
+
+def parseWEv (j : Json) : WEv := ⟨jstr j "cg", jstr j "f", jstr j "v"⟩
+
+/-- first integer token of a written value -/
+def firstInt (s : String) : Option Int := ((s.splitOn " ").headD "").toInt?
+
+def applyWrites (w : World) (evs : List WEv) : World :=
+  evs.foldl (fun w e =>
+    match firstInt e.text with
+    | some v =>
+      if e.file == "memory.high" then w.setHigh e.cg false v
+      else if e.file == "memory.high.tmp" then w.setHigh e.cg true v
+      else w
+    | none => w) w
+
+/-! ## branch tags (coverage of `run`, `tick`, `tick_immediate_backoff`; from the model's own pieces) -/
+
+def adjustTag [Num α] (cfg : Cfg α) (sys : Sys α) (fl : Flags) (v : View α) (st : CgState) (factor : α) : String :=
+  match getLimitMinBytes cfg sys v with
+  | none => "nofloor"
+  | some lo => match getLimitMaxBytes cfg fl v with
+    | (_, none) => "noceil"
+    | (fl1, some hi) =>
+      let x := scaled st.limit factor
+      let w := writeMemhigh fl1 v 0 .adjust
+      if !w.ok then "writefail"
+      else if lo > hi then "floor>ceil"
+      else if x < lo then "clamp-floor"
+      else if x > hi then "clamp-ceil"
+      else "free"
+
+def tagStep [Num α] (cfg : Cfg α) (sys : Sys α) (fl : Flags) (v : View α) (st? : Option CgState) : String :=
+  match st? with
+  | none => if (initializeCgroup cfg fl v).st.isSome then "init:ok" else
+      (if (initializeCgroup cfg fl v).evs.isEmpty then "init:fail" else "init:fail-after-write")
+  | some st =>
+    if cfg.immediateBackoff then
+      if st.ticks ≠ 0 then "imm:countdown" else
+      match validatePressure cfg v with
+      | none => "imm:pressure-unavailable"
+      | some vp =>
+        match (if cfg.swapValidation then validateSwap cfg sys v else some true) with
+        | none => "imm:swap-unavailable"
+        | some vs =>
+          if !vp then (if vs then "imm:pressure-high" else "imm:pressure-high+swap-high")
+          else if !vs then "imm:swap-high" else
+          match getLimitMinBytes cfg sys v with
+          | none => "imm:nofloor"
+          | some lo => match v.current with
+            | none => "imm:nocur"
+            | some cur =>
+              if ¬ cur > lo then "imm:at-floor" else
+              if cfg.modulateSwappiness && (calculateSwappinessFactor cfg sys v).isNone then "imm:swapfactor-unavailable" else
+              let w := reclaim fl v (reclaimSize cfg cur lo)
+              let how := if (hasMemoryReclaim fl v).2 == some true then "file" else "poke"
+              let sw := if cfg.modulateSwappiness then "+swappiness" else ""
+              if w.ok then s!"imm:reclaim-{how}{sw}" else s!"imm:reclaim-{how}-fail{w.evs.length}{sw}"
+    else
+      match readMemhigh fl v with
+      | (_, none) => "tick:nolimit"
+      | (fl1, some limit) =>
+        if limit ≠ st.limit then
+          (if (initializeCgroup cfg fl1 v).st.isSome then "tick:mismatch-reinit" else "tick:mismatch-reinit-fail")
+        else match pressureTotal v with
+          | none => "tick:nototal"
+          | some total =>
+            let cum := st.cumulative + (total - st.lastTotal)
+            if cum ≥ cfg.pressureMs * 1000 then "tick:backoff:" ++ adjustTag cfg sys fl1 v st (backoffFactor cfg cum)
+            else if st.ticks ≠ 0 then "tick:countdown"
+            else "tick:probe:" ++ adjustTag cfg sys fl1 v st (probeFactor cfg cum)
+
+/-- replays the walk view by view (lookup by id) only to name the branches taken -/
+def tagsOfTick [Num α] (cfg : Cfg α) (st : PState) (t : TickIn α) : List String :=
+  let sorted := sortById t.resolved
+  let ids := sorted.map (·.id)
+  let stale := st.tracked.filter (fun p => !ids.contains p.1)
+  let go := sorted.foldl (fun (acc : Flags × List String) v =>
+      let s? := (st.tracked.find? (fun p => p.1 == v.id)).map (·.2)
+      let tag := tagStep cfg t.sys acc.1 v s?
+      let r := match s? with
+        | none => initializeCgroup cfg acc.1 v
+        | some s => tickAny cfg t.sys acc.1 v s
+      let early := s?.isNone && st.tracked.any (fun p => v.id < p.1)
+      (r.fl, acc.2 ++ [tag] ++ (if early then ["walk:new-before-tracked"] else []))) (st.fl, [])
+  go.2 ++ (if stale.isEmpty then [] else ["walk:erase-stale"])
+    ++ (if st.tracked.any (fun p => match sorted.getLast? with | some l => p.1 > l.id | none => true) then ["walk:erase-tail"] else [])
+
+/-! ## the oracle: property clauses on the implementation's writes, exact arithmetic -/
+
+structure Judge where
+  viol : List String := []
+  margin : Nat := 0
+
+def Judge.bad (j : Judge) (c : String) : Judge := if j.viol.contains c then j else { j with viol := j.viol ++ [c] }
+
+/-- floor as the property defines it: unreclaimable usage + limit_min_bytes, at least memory.min -/
+def oracleFloor (limitMin : Int) (sysQ : Sys Rat) (cgs : List CgE) (c : CgE) : Option Int := do
+  let cur ← c.cur
+  let st ← c.stat
+  let af ← statKey st "active_file"
+  let inf ← statKey st "inactive_file"
+  let swappable : Int ←
+    if sysQ.swaptotal > 0 ∧ sysQ.swappiness > 0 then do
+      let free ← effSwapFree sysQ.swaptotal sysQ.swapused (swapChain cgs c.path)
+      if free > 0 then do
+        let aa ← statKey st "active_anon"
+        let ia ← statKey st "inactive_anon"
+        pure (min free (aa + ia))
+      else pure 0
+    else pure 0
+  let mmin ← c.mmin
+  pure (max (cur - (af + inf + swappable) + limitMin) mmin)
+
+/-- ceiling as the property defines it; memory.high counts when the limit goes to memory.high.tmp -/
+def oracleCeil (cfg : Cfg Rat) (tmp : Bool) (memHigh : Option Int) (c : CgE) : Option Int := do
+  let cur ← c.cur
+  let mx ← c.mmax
+  let base := min (min cfg.hostMemTotal (cur + cfg.limitMaxBytes)) mx
+  if tmp then do
+    let h ← memHigh
+    pure (min base h)
+  else pure base
+
+def limitOK (lo hi l : Int) : Bool := l % 4096 == 0 && l > lo - 4096 && (l ≤ hi || lo > hi)
+
+structure TickCtx where
+  cfgQ : Cfg Rat
+  cfgF : Cfg Float
+  sysQ : Sys Rat
+  sysF : Sys Float
+  cgs : List CgE
+  pats : List String
+  world : World            -- contents at the start of the tick
+  prevIds : List Nat       -- identities resolved in the previous tick
+
+def ltBoth (j : Judge) (clause : String) (q : Bool) (f : Bool) : Judge :=
+  if q != f then { j with margin := j.margin + 1 } else if q then j else j.bad clause
+
+/-- the reclaim clauses for a reclaim of `size` bytes from cgroup `c` -/
+def judgeReclaim (x : TickCtx) (j : Judge) (c : CgE) (size : Int) : Judge :=
+  let j := if size % 4096 == 0 then j else j.bad "reclaim_bound.aligned"
+  let j := match c.cur, oracleFloor x.cfgQ.limitMinBytes x.sysQ x.cgs c with
+    | some cur, some lo =>
+      let bound : Rat := x.cfgQ.maxProbe * ((cur - lo : Int) : Rat)
+      if cur > lo ∧ (size : Rat) ≤ bound then j
+      else if cur > lo ∧ (size : Rat) ≤ bound * (1 + 1 / 1099511627776) then { j with margin := j.margin + 1 }
+      else j.bad "reclaim_bound.size"
+    | _, _ => j.bad "reclaim_bound.size"
+  let j := match c.mp, c.iop with
+    | some (m10, m60, _), some (i10, i60, _) =>
+      let q := decide (convQ.avg (max m10 m60) < x.cfgQ.memPressurePct) && decide (convQ.avg (max i10 i60) < x.cfgQ.ioPressurePct)
+      let f := (convF.avg (max m10 m60) < x.cfgF.memPressurePct) && (convF.avg (max i10 i60) < x.cfgF.ioPressurePct)
+      ltBoth j "reclaim_bound.pressure" q f
+    | _, _ => j.bad "reclaim_bound.pressure"
+  if !x.cfgQ.swapValidation then j else
+  if x.sysQ.swaptotal == 0 || x.sysQ.swappiness == 0 then j else
+  let chain := swapChain x.cgs c.path
+  match effSwapMax x.sysQ.swaptotal chain with
+  | none => j.bad "reclaim_bound.swap"
+  | some 0 => j
+  | some _ =>
+    match (effSwapUtil x.sysQ.swaptotal x.sysQ.swapused chain : Option Rat),
+          (effSwapUtil x.sysF.swaptotal x.sysF.swapused chain : Option Float) with
+    | some uq, some uf => ltBoth j "reclaim_bound.swap" (decide (uq < x.cfgQ.swapThreshold)) (uf < x.cfgF.swapThreshold)
+    | _, _ => j.bad "reclaim_bound.swap"
+
+def judgeTick (x : TickCtx) (j0 : Judge) (evs : List WEv) : Judge := Id.run do
+  let mut j := j0
+  let arr := evs.toArray
+  let imm := x.cfgQ.immediateBackoff
+  for i in [0:arr.size] do
+    let e := arr[i]!
+    if e.file == "swappiness" && e.cg == "" then
+      if !(x.cfgQ.modulateSwappiness && imm) then j := j.bad "writes_only_matched.swappiness"
+      continue
+    let c? := x.cgs.find? (fun c => c.path == e.cg)
+    let okFile := e.file == "memory.high" || e.file == "memory.high.tmp" || e.file == "memory.reclaim"
+    match c? with
+    | none => j := j.bad "writes_only_matched"
+    | some c =>
+      if !(isMatched x.pats c) || !okFile then
+        j := j.bad "writes_only_matched"
+        continue
+      let fresh := !x.prevIds.contains c.ino
+      match firstInt e.text with
+      | none => j := j.bad "writes_only_matched.value"
+      | some v =>
+        if e.file == "memory.reclaim" then
+          if !imm then j := j.bad "reclaim_bound.mode"
+          if fresh then j := j.bad "state_by_identity"
+          j := judgeReclaim x j c v
+        else
+          let tmp := e.file == "memory.high.tmp"
+          if imm then
+            if fresh then j := j.bad "state_by_identity"
+            if v != int64Max then
+              -- a poke: bounded like a reclaim, and reset to max by the next write
+              match c.cur with
+              | some cur => j := judgeReclaim x j c (cur - v)
+              | none => j := j.bad "reclaim_bound.size"
+              let nxt := arr[i+1]?
+              let ok := match nxt with
+                | some n => n.cg == e.cg && n.file == e.file && firstInt n.text == some int64Max
+                | none => false
+              if !ok then j := j.bad "poke_reset_same_tick"
+          else
+            if c.cur == some v then pure ()
+            else
+              if fresh then j := j.bad "state_by_identity"
+              let memHigh := (x.world.find c.path).bind (·.high)
+              match oracleFloor x.cfgQ.limitMinBytes x.sysQ x.cgs c, oracleCeil x.cfgQ tmp memHigh c with
+              | some lo, some hi => if !(limitOK lo hi v) then j := j.bad "limit_bounds"
+              | _, _ => j := j.bad "limit_bounds"
+  -- swappiness restored within the tick
+  let sw := evs.filter (fun e => e.file == "swappiness" && e.cg == "")
+  match sw.getLast? with
+  | some l => if l.text != s!"{x.sysQ.swappiness}" then j := j.bad "swappiness_restored"
+  | none => pure ()
+  return j
+
+/-! ## one scenario -/
+
+structure Acc where
+  stF : PState := {}
+  worldM : World := []        -- world as the model's writes leave it
+  worldI : World := []        -- world as the implementation's writes leave it
+  prevIds : List Nat := []
+  judge : Judge := {}
+  diffs : List Nat := []
+  model : List Json := []
+  tags : List String := []
 
 def handle (j : Json) : Json :=
-  Json.mkObj [("id", Json.str (jstr (jobj j "s") "id")), ("error", Json.str "engine senpai not implemented")]
+  let sc := jobj j "s"
+  let tr := jobj j "t"
+  let id := jstr sc "id"
+  let cfgF : Cfg Float := mkCfg convF sc
+  let cfgQ : Cfg Rat := mkCfg convQ sc
+  let pats := patternsOf sc
+  let initRc : Int := if jbool sc "meminfo_missing" then 1 else 0
+  let implTicks : List (List WEv) := (jarr tr "ticks").map (fun t => (asArr t).map parseWEv)
+  let ticks := if initRc == 0 then jarr sc "ticks" else []
+  let acc : Acc := (List.zip (List.range ticks.length) ticks).foldl (fun (a : Acc) (k, tj) =>
+    let cgs := (jarr tj "cgs").map parseCg
+    let sysF : Sys Float := mkSys convF (jobj tj "sys")
+    let sysQ : Sys Rat := mkSys convQ (jobj tj "sys")
+    let matched := cgs.filter (isMatched pats)
+    -- model
+    let wM := nextWorld a.worldM cgs
+    let tin : TickIn Float := { sys := sysF, resolved := matched.map (mkView convF sysF cgs wM) }
+    let tags := tagsOfTick cfgF a.stF tin
+    let (stF', evs) := runTick cfgF a.stF tin
+    let idPath (n : Nat) : String := ((matched.find? (fun c => c.ino == n)).map (·.path)).getD "?"
+    let mevs := evs.map (evToW idPath)
+    -- implementation
+    let ievs := implTicks.getD k []
+    let wI := nextWorld a.worldI cgs
+    let x : TickCtx := { cfgQ := cfgQ, cfgF := cfgF, sysQ := sysQ, sysF := sysF, cgs := cgs, pats := pats, world := wI, prevIds := a.prevIds }
+    let jd := judgeTick x a.judge ievs
+    { stF := stF', worldM := applyWrites wM mevs, worldI := applyWrites wI ievs
+      prevIds := matched.map (·.ino), judge := jd
+      diffs := if mevs == ievs then a.diffs else a.diffs ++ [k]
+      model := a.model ++ [Json.arr (mevs.map wevJ).toArray]
+      tags := a.tags ++ tags }) {}
+  let initOk := jint tr "init" == initRc
+  let lenOk := implTicks.length == ticks.length
+  let accepts := initOk && lenOk && acc.diffs.isEmpty && jstr tr "outcome" == "ok"
+  let viol := acc.judge.viol
+  let cls := match viol with
+    | [] => ""
+    | v :: _ => if viol.contains "reclaim_bound.swap" then "reclaim_bound.swap" else v
+  verdict id accepts viol.isEmpty viol cls
+    [("diff_ticks", Json.arr (acc.diffs.map (fun n => Json.num (JsonNumber.fromNat n))).toArray),
+     ("margin", Json.num (JsonNumber.fromNat acc.judge.margin)),
+     ("tags", mkStrs acc.tags.eraseDups),
+     ("model", Json.arr acc.model.toArray)]
 
 end Driver.Senpai
 
